@@ -612,4 +612,6 @@ func TestC10(t *testing.T) {
 	defer c.Finish()
 	c.Rule("histories of <=25 single-statement container operations (read, write, append via += / + / index len, 2- and 3-index slicing, delete, len, in, alias by assignment, script function mutating its parameter, member read/write, string index/slice/element store) on 3-6 variables of kinds []interface{}, map[interface{}]interface{}, string, []int64, []string, []float64, [][]int64, map[string]int64, map[int64]string and make(struct{A int64,B string,C float64,D []int64,E map[string]int64,F bool}); indices from {MinInt64,-1,0,1,2,len-2..len+1,cap,cap+1,2^31,MaxInt64,1.9,\"x\",nil,[1]}; every step mirrored on real Go values; non-trivial = >=4 steps after initialisation and (a successful mutation of a variable that was aliased or re-sliced, or an erroring operation followed by a successful read); distinct by history text")
 	h.Run(c, "history", c.N(12000, 120000), genCase, oracle)
+	c.Rule("nilmap: a nil map (zero element of make([]map[K]V, 2), in a variable or still in the slice; K/V string/int64, int64/string, interface/interface) goes through 1-7 operations: stores with an ill-typed value / ill-typed key / unhashable key (must fail), reads, len, delete (also with an ill-typed key), for-in, successful stores (a store into a nil map may create it or fail); after every step the map is nil exactly when no store succeeded and holds exactly the stored entries; non-trivial = at least one failing operation")
+	h.Run(c, "nilmap", c.N(6000, 60000), genNilMap, oracleNilMap)
 }
